@@ -143,3 +143,25 @@ def epoll_wrappers(ctx, rule):
             r = look(lf.ret())
             ctx.ob(rule, "wrapper|%s|result" % name, is_call(r, "map_err") and is_call(look(r[2][0]), "ctl"), "%s returns the result of that ctl call" % name, fn.loc(0))
     return out
+
+
+def from_fn_drains(facts, lf, consumers):
+    """Does this path run `iter::from_fn(|| conn.pop_parsed_request())` to exhaustion (handed to one of `consumers`)?
+    from_fn calls the closure until it answers None: the same drain as `while let Some(r) = pop_parsed_request()`."""
+    from .conn import P
+    for e in lf.events:
+        if e[0] != "call" or last_seg(e[3]) not in consumers:
+            continue
+        for a in e[4][2]:
+            x = look(a)
+            while x[0] == "mut":
+                x = look(x[1])
+            if is_call(x, "std::iter::from_fn") and x[2]:
+                clo = look(x[2][0])
+                if clo[0] == "closure" and clo[1] in facts.fns:
+                    good = True
+                    for l2 in PathEnum(facts.fns[clo[1]], facts).run():
+                        good = good and is_call(look(l2.ret()), P + "pop_parsed_request")
+                    if good:
+                        return e
+    return None
